@@ -7,6 +7,7 @@
    neighbours is read back exactly.  Type 15 is proved for its three specification-legal forms (88, 110, 160 bits). *)
 From Ais Require Import Model.Base Model.Enums Model.Fields Model.Messages Model.Unarmor Model.Sentence
   Spec.Layouts Proofs.Bits Proofs.Reads Proofs.Layouts Proofs.Dispatch Proofs.MsgLevel.
+From Ais Require Import Spec.Grammar Spec.Armor Proofs.EndToEnd Proofs.UnarmorProof.
 From Coq Require Import Lia.
 Local Open Scope N_scope.
 
@@ -164,6 +165,26 @@ Theorem C04_type15_two_stations :
   forall c q bs, sl bs 0 6 = 15 -> length bs = 160%nat -> parse_bits c q bs = Ok (Interrogation (interrogation_160 bs)).
 Proof. exact msg_type15_160. Qed.
 Print Assumptions C04_type15_two_stations.
+
+(* end to end: an unfragmented well-formed sentence whose payload is over the alphabet is decoded,
+   with decoding on, as messages::parse of the specification bit stream of its payload (Spec/Armor.v);
+   together with the per-type theorems above this gives every field of the sentence's message as a
+   slice of the 6-bit values transmitted *)
+Theorem C04_end_to_end :
+  forall c q st line f hex vals,
+    Shaped c line f hex -> xor_fold (body_bytes f) = checksum_read hex ->
+    let s := sentence_of_fields q f in
+    has_more s = false -> is_fragment s = false ->
+    vals_of (af_payload f) = Some vals ->
+    noalloc c && (MAX_SENTENCE_SIZE_BYTES <? byte_count (length (af_payload f)))%nat = false ->
+    step c q st line true =
+    (st, match parse_bits c q (unarmor_bits vals (N.to_nat (dec_value (af_fill f)))) with
+         | Ok m => Ok (Complete (with_message s (Some m)))
+         | Err e => Err e
+         | Panic p => Panic p
+         end).
+Proof. exact unfragmented_decodes_spec_bits. Qed.
+Print Assumptions C04_end_to_end.
 
 (* the hypotheses are met by a real message: the type-4 payload of the repo's README sentence *)
 Example C04_nonvacuous :
